@@ -237,6 +237,16 @@ def run_op(api, layout_mod, write_elf, op):
                     data = f.getvalue() + "".join(
                         img.name + ":" + img.data.hex()
                         for img in linked.images)
+                elif kind == "hex":
+                    from ppci.format.hexfile import HexFile
+                    lay = layout_mod.Layout.load(io.StringIO(LAYOUT))
+                    linked = api.link([obj], lay, partial_link=False)
+                    hf = HexFile()
+                    for img in linked.images:
+                        hf.add_region(img.address, img.data)
+                    f = io.StringIO()
+                    hf.save(f)
+                    data = f.getvalue()
                 elif kind == "exe":
                     lay = layout_mod.Layout.load(io.StringIO(LAYOUT))
                     linked = api.link([obj], lay, partial_link=False)
